@@ -226,10 +226,16 @@ def unusual_grammars():
     # default recursion_limit in the drop-check of the nested content types (known finding F-DEPTH; pest_derive compiles both)
     add("chain_26_ok", chain([f"q{i}" for i in range(26)]), mutate=False)
     add("deep_chain_31", chain([f"q{i}" for i in range(31)]), mutate=False)
-    # the same mechanism through ONE rule: the un-optimized AST of `a ~ b ~ c ~ …` is left-nested and only the right spine is
-    # flattened, so with `#[pest_optimizer = false]` 33 terms nest 32 `Seq2<Skipped<…>>` (F-DEPTH); 24 terms must compile
-    add("seq24_raw_ok", "r0 = { " + " ~ ".join(f'"{a}{b}"' for a in "abc" for b in letters[:8]) + " }\n", mutate=False)
-    add("deep_seq33_raw", "r0 = { " + " ~ ".join(f'"{a}{b}"' for a in "abc" for b in letters[:11]) + " }\n", mutate=False)
+    # the same mechanism through ONE self-recursive rule: the un-optimized AST of `a ~ b ~ c ~ …` is left-nested and only the
+    # right spine is flattened, so with `#[pest_optimizer = false]` 33 terms nest 32 `Seq2<Skipped<…>>`, and the drop-check
+    # unfolds the rule's own reference before it cuts the cycle (F-DEPTH; the same sequence without the self reference, and
+    # the self-recursive one under the default options, compile); 16 terms must compile under every option set
+    def selfseq(n):
+        ts = [f'"{a}{b}"' for a in "abc" for b in letters[:11]][:n]
+        ts[1] = ts[n * 2 // 3] = "r0"
+        return "r0 = { " + " ~ ".join(ts) + " }\n"
+    add("selfseq16_raw_ok", selfseq(16), mutate=False)
+    add("deep_seq33_raw", selfseq(33), mutate=False)
     add("names_vec_option_box", 'Vec = { Option* ~ "v" }\nOption = { Box? ~ "o" }\nBox = { "b" ~ (Some | None)? }\nSome = { "s" ~ String }\nNone = { "n" }\n'
         'String = { "t"+ }\nr = { Vec ~ Option ~ Box ~ (Some | None){2} ~ String* ~ (Vec ~ Option)+ ~ (Box ~ Vec?)* }\n')
     # two names the runtime's macros use unqualified at the expansion site (found by this check; pest_derive compiles both)
